@@ -104,7 +104,17 @@ class EventRecorderBase:
         if scope.url is None:
             return False
         store_url = getattr(self._event_store, "_connection_string", None)
-        return store_url is not None and store_url == scope.url
+        if store_url is None:
+            return False
+        # Compare the way the connection manager keys connections: equivalent
+        # spellings of one SQLite file ("sqlite:///x.db", "sqlite://x.db",
+        # "x.db") share ONE thread-local connection, so an event store opened
+        # with another spelling must still join - appending "on its own
+        # connection" would commit the caller's open transaction half-way.
+        from stabilize.persistence.connection import get_connection_manager
+
+        same_database = get_connection_manager()._parse_sqlite_path
+        return bool(same_database(store_url) == same_database(scope.url))
 
     def _record_batch(
         self,
